@@ -150,7 +150,11 @@ def check(case):
         # (central differences of a field that falls as 1/d^2..1/d^3 are off by about (step / d)^2: 1.6 % at 8 steps,
         # 1.1 % at 9 steps - observed -, 0.7 % at 12 steps)
         h_fd = 0.001 * lam
-        fd = ':closer-than-12-finite-difference-steps' if (dmin < 12 * h_fd and max(de, dh) <= (0.05 if dmin < 8 * h_fd else 0.02)) else ''
+        # (between 12 and 25 steps the excess follows the second-order law: a point 15.4 steps from a one-segment wire
+        # was off by 1.2 %; with the step halved / quartered in a scratch copy of the routine the program's value
+        # moved to within 3e-4 of the reference - allowance there: 1 % + 4 (step / d)^2)
+        cap_fd = 0.05 if dmin < 8 * h_fd else (0.02 if dmin < 12 * h_fd else 0.01 + 4 * (h_fd / dmin) ** 2)
+        fd = ':closer-than-25-finite-difference-steps' if (dmin < 25 * h_fd and max(de, dh) <= cap_fd) else ''
         if de > 0.01:
             fails.append(('E-vs-currents:' + spec['shell'] + fd, 'E at %s: program %s, field of the solved currents %s (%.3g)'
                           % ([float(x) for x in obs], e.tolist(), Er.tolist(), de)))
